@@ -31,7 +31,14 @@ ASSUMPTIONS = ['D >= 0 on every face, alpha > 0, dt > 0, beta >= 0, faces increa
 
 
 def jobs(tier):
-    return [(c, tier) for c in MESH_CLASSES]
+    out = [(c, tier) for c in MESH_CLASSES]
+    if tier != 'quick':
+        # thorough tier: concrete small grids (down to one cell per axis) with symbolic data
+        from ..model import DIM as _DIM
+        for c in MESH_CLASSES:
+            for sz in F.QUICK_SMALL_SIZES[_DIM[c]]:
+                out.append((c, tier, sz))
+    return out
 
 
 def sign_cases(w, expr: Rat):
@@ -81,9 +88,10 @@ def sign_cases(w, expr: Rat):
 
 
 def job(args):
-    cls, tier = args
+    cls, tier = args[:2]
+    sizes = args[2] if len(args) > 2 else None
     sm = SourceModel()
-    w = World(sm, cls)
+    w = World(sm, cls, sizes=sizes)
     d = w.dim
     obs, samples, units = [], [], set()
 
@@ -140,7 +148,7 @@ def job(args):
     al, dt = Rat.atom(('alpha',)), Rat.atom(('dt',))
     w.pos_atoms |= al.atoms() | dt.atoms()
     Mt, Rt = w.call('source', 'transientTerm', w.cell_variable('phi', w.boundary_conditions()), dt, al)
-    P = tuple(w.t)
+    P = tuple(w.g)
     row = F.row_by_col(w, w.matrix_row(Mt, P))
     kP = tuple(str(x) for x in P)
     okk = set(row) <= {kP} and w.sign_of(row.get(kP, (None, ZERO))[1]) == '+'
@@ -168,8 +176,8 @@ def job(args):
             if a >= d:
                 continue
             n = w.N[a]
-            G = tuple((ZERO if side == 'low' else n + 1) if k == a else w.t[k] for k in range(d))
-            I = tuple((ONE if side == 'low' else n) if k == a else w.t[k] for k in range(d))
+            G = tuple((ZERO if side == 'low' else n + 1) if k == a else w.g[k] for k in range(d))
+            I = tuple((ONE if side == 'low' else n) if k == a else w.g[k] for k in range(d))
             gv = ghost.at(G)
             aI = atom_id(('phi',) + I)
             try:
@@ -197,7 +205,7 @@ def job(args):
             ob('M3', f"boundary.{ri}/periodic/axis={AX[a]}", False, f"raises {e.exc}", rfi.loc())
             continue
         n = w.N[a]
-        cell = lambda v: tuple(v if k == a else w.t[k] for k in range(d))
+        cell = lambda v: tuple(v if k == a else w.g[k] for k in range(d))
         G0, GN, C1, CN = cell(ZERO), cell(n + 1), cell(ONE), cell(n)
         keys = {tuple(str(x) for x in c): nm for c, nm in ((G0, 'g0'), (GN, 'gN'), (C1, 'c1'), (CN, 'cN'))}
         eqs = []
